@@ -13,6 +13,9 @@
 #include <unifex/scheduler_concepts.hpp>
 #include <unifex/sender_concepts.hpp>
 #include <unifex/thread_unsafe_event_loop.hpp>
+#include <unifex/delay.hpp>
+#include <unifex/for_each.hpp>
+#include <unifex/range_stream.hpp>
 
 #include <nlohmann/json.hpp>
 
@@ -118,6 +121,29 @@ static void on_sleep(long long ns) {
   vrt::ev("{\"e\":\"Tick\",\"now\":%lld}", rel_now());
 }
 
+// delay(stream, scheduler, d): element k of range_stream{0,n} must not be delivered before d after element k-1 was
+// (finally(next, schedule_after(scheduler, d))): reported to TimerMon as one timer per element, armed when the previous
+// element was delivered (the range's next() completes inline, the clock only moves inside sleep_until)
+static void run_delay(long x, int n, int d) {
+  tseam::vnow_ns.store(BASE);
+  vrt::ev("{\"e\":\"Reset\",\"x\":%ld,\"k\":0,\"scn\":%d,\"now\":0,\"rt\":0,\"slack\":0,\"delay\":[%d,%d]}", x, 0, n, d);
+  thread_unsafe_event_loop loop;
+  int delivered = 0;
+  auto armNext = [&](int k) {
+    if (k > n) return;
+    vrt::ev("{\"e\":\"ArmBegin\",\"sync\":1,\"op\":%d,\"due\":%lld,\"now\":%lld}", k, rel_now() + d, rel_now());
+    vrt::ev("{\"e\":\"ArmEnd\",\"op\":%d,\"now\":%lld}", k, rel_now());
+  };
+  armNext(1);
+  loop.sync_wait(for_each(delay(range_stream{0, n}, loop.get_scheduler(), std::chrono::nanoseconds(d)), [&](int v) {
+    long long nowS = std::chrono::duration_cast<std::chrono::nanoseconds>(sclock::now().time_since_epoch()).count() - BASE;
+    vrt::ev("{\"e\":\"Fire\",\"op\":%d,\"ch\":\"value\",\"now\":%lld,\"v\":%d}", v + 1, nowS, v);
+    ++delivered;
+    armNext(v + 2);
+  }));
+  vrt::ev("{\"e\":\"End\",\"pending\":%d}", n - delivered);
+}
+
 static std::vector<Act> parseProg(const json& j) {
   std::vector<Act> p;
   for (auto& a : j) p.push_back({a[0].get<std::string>() == "arm" ? 'a' : 's', a[1].get<int>()});
@@ -139,6 +165,14 @@ int main(int argc, char** argv) {
   if (a.has("log")) vrt::log_open(a.str("log").c_str());
   long from = a.num("from", 0), to = a.num("to", 1L << 40);
   long execs = 0, obsMismatch = 0; std::string firstMismatch;
+  if (a.has("delay")) {                       // units = (n, d) pairs
+    const int cases[][2] = {{1, 1}, {3, 2}, {4, 0}, {2, 5}, {6, 1}, {0, 3}};
+    for (long x = from; x < to && x < 6; ++x) { run_delay(x, cases[x][0], cases[x][1]); ++execs; }
+    vrt::log_close();
+    json s = {{"mode", "delay"}, {"units", execs}, {"execs", execs}, {"drift", 0}, {"unguided", 0}, {"obs_mismatch", 0}, {"first_mismatch", ""}};
+    std::printf("%s\n", s.dump().c_str());
+    return 0;
+  }
   for (long x = from; x < to && x < (long)scns.size(); ++x) {
     const Scenario& sc = scns[x];
     tseam::vnow_ns.store(BASE);
